@@ -265,7 +265,7 @@ func cmdEvents(args []string) int {
 		lw = bufio.NewWriter(f)
 		defer lw.Flush()
 	}
-	n := 0
+	n, scanned := 0, 0
 	sc := bufio.NewScanner(r)
 	sc.Buffer(make([]byte, 1<<24), 1<<24)
 	for sc.Scan() {
@@ -299,6 +299,10 @@ func cmdEvents(args []string) int {
 			evs = optEvents(&ln, nl)
 		case *kind == "idem" && (ln.T == "p" || ln.T == "u"):
 			evs = idemEvents(ln.In, ln.Bs, nameList, ln.T == "u")
+		case *kind == "idem" && ln.T == "scan":
+			var k int
+			evs, k = idemScan(&ln, nameList)
+			scanned += k
 		case *kind == "class" && ln.T == "cls":
 			evs = classEvents(ln.Sp, ln.Std, nameList)
 		default:
@@ -316,8 +320,42 @@ func cmdEvents(args []string) int {
 			n++
 		}
 	}
+	if scanned > 0 {
+		fmt.Printf("SCANNED n=%d\n", scanned)
+	}
 	fmt.Printf("EVENTS kind=%s n=%d\n", *kind, n)
 	return 0
+}
+
+// idemScan explores a token-generated input space on the real code and keeps, as events for TLC, the (input, profile) pairs on which the
+// fixed-point law fails plus a sample of the others (whose output is still compared with the specification's prediction).
+func idemScan(ln *Line, profs []string) (out []interface{}, scanned int) {
+	sample := ln.Sample
+	if sample <= 0 {
+		sample = 1000
+	}
+	var rec func(s proj.Text, n int)
+	rec = func(s proj.Text, n int) {
+		for _, pre := range ln.Pre {
+			in := append(append(proj.Text{}, pre...), s...)
+			for _, ev := range idemEvents(in, nil, profs, false) {
+				e := ev.(IdemEvent)
+				scanned++
+				holds := !e.Law || e.Y.Fail || (!e.Z.Fail && e.Z.G.Href.Eq(e.Y.G.Href))
+				if !holds || scanned%sample == 0 {
+					out = append(out, e)
+				}
+			}
+		}
+		if n == 0 {
+			return
+		}
+		for _, t := range ln.Tok {
+			rec(append(append(proj.Text{}, s...), t...), n-1)
+		}
+	}
+	rec(proj.Text{}, ln.N)
+	return
 }
 
 func init() {
